@@ -22,6 +22,7 @@ import CnvVerif.Driver.Reference
 import CnvVerif.Driver.ReferenceExt5
 import CnvVerif.Driver.Coverage
 import CnvVerif.Driver.CoverageExt
+import CnvVerif.Driver.CoverageExt5Cols
 import CnvVerif.Driver.Effects
 import CnvVerif.Driver.EffectsExt
 import CnvVerif.Driver.Bins
@@ -38,7 +39,7 @@ import CnvVerif.Driver.RangesExt
 open Lean CnvVerif.Drv
 
 def handlers : List (String → Json → Option Json → R (Option Json)) :=
-  [handleInterval, handleRangesExt, handleCall, handleCallCmd, handleSegFilter, handleSegFilterExt, handleTile, handleCenter, handleSexExt, handleFix, handleAccess, Genes.handleGenes, handleFormats, handleFormatsExt, handleExport, handleExportExt, C20Ci.handleExportCi, Reference.handleReference, handleCoverage, handleCoverageExt, handleEffects, handleEffectsExt, handleBins, handleVcf, handleVcfExt, handleDescriptives, Haar.handleHaar, HaarExt.handleHaarExt, handleStats, handleStatsGlue, handleStatsExt5, handleSegFilterExt5, handleAccessExt5, handleDescLoopExt5, ReferenceExt5.handleReferenceExt5, handleCallWhole, handleCallWrappers]
+  [handleInterval, handleRangesExt, handleCall, handleCallCmd, handleSegFilter, handleSegFilterExt, handleTile, handleCenter, handleSexExt, handleFix, handleAccess, Genes.handleGenes, handleFormats, handleFormatsExt, handleExport, handleExportExt, C20Ci.handleExportCi, Reference.handleReference, handleCoverage, handleCoverageExt, handleEffects, handleEffectsExt, handleBins, handleVcf, handleVcfExt, handleDescriptives, Haar.handleHaar, HaarExt.handleHaarExt, handleStats, handleStatsGlue, handleStatsExt5, handleSegFilterExt5, handleAccessExt5, handleDescLoopExt5, ReferenceExt5.handleReferenceExt5, handleCallWhole, handleCallWrappers, handleCoverageExt5Cols]
 
 def dispatch (op : String) (inp : Json) (impl : Option Json) : R Json := do
   for h in handlers do
